@@ -9,17 +9,21 @@ Definition nthN {A} (d : A) (l : list A) (n : N) : A := nth (N.to_nat n) l d.
 Fixpoint lookupN {A} (d : A) (k : N) (l : list (N * A)) : A :=
   match l with [] => d | (k', v) :: r => if N.eqb k k' then v else lookupN d k r end.
 Definition mk_env (ne : list bool) (bk : list (list item)) (fmt : list (list (N * list item)))
-           (users : list (list item)) (parses : list (str * option ptree)) : env :=
+           (users : list (list item)) (parses : list (str * option ptree))
+           (srcs : list (outcome (list str))) (files : list iid) : env :=
   {| e_ne := nthN false ne; e_bk := nthN [] bk;
      e_fmt := fun c f => lookupN [] f (nthN [] fmt c);
      e_user := nthN [] users;
-     e_parse := fun k => match lookup k parses with Some (Some t) => Some t | _ => None end |}.
+     e_parse := fun k => match lookup k parses with Some (Some t) => Some t | _ => None end;
+     e_src := nthN (SigmaErr 99) srcs;
+     e_files := files |}.
 
 (* ---- what the implementation reported for one operation ---- *)
 Record isnap := { s_applied : list bool; s_ids : list str; s_state : list (str * str);
-                  s_fmap : list (str * list str) }.
+                  s_fmap : list (str * list str); s_fna : list (str * list str) }.
 Record iout := { io_res : outcome (list str); io_errs : list N; io_snap : option isnap;
-                 io_hits : N; io_miss : N; io_hints : list N; io_tpl_ok : bool }.
+                 io_hits : N; io_miss : N; io_hints : list N; io_tpl_ok : bool;
+                 io_vc : list (option (list str)) }.
 
 Definition incl_b {A} (eqb : A -> A -> bool) (a b : list A) : bool :=
   forallb (fun x => existsb (eqb x) b) a.
@@ -34,12 +38,13 @@ Definition res_eqb (a b : outcome (list str)) : bool :=
   | Crash x, Crash y => N.eqb x y
   | _, _ => false end.
 Definition snap_of (ps : pstate) : isnap :=
-  {| s_applied := ps_applied ps; s_ids := ps_ids ps; s_state := ps_state ps; s_fmap := ps_fmap ps |}.
+  {| s_applied := ps_applied ps; s_ids := ps_ids ps; s_state := ps_state ps; s_fmap := ps_fmap ps; s_fna := ps_fna ps |}.
 Definition isnap_eqb (a b : isnap) : bool :=
   list_eqb Bool.eqb (s_applied a) (s_applied b)
   && seteq str_eqb (s_ids a) (s_ids b)
   && seteq (pair_eqb str_eqb str_eqb) (s_state a) (s_state b)
-  && seteq (pair_eqb str_eqb (seteq str_eqb)) (s_fmap a) (s_fmap b).
+  && seteq (pair_eqb str_eqb (seteq str_eqb)) (s_fmap a) (s_fmap b)
+  && seteq (pair_eqb str_eqb (seteq str_eqb)) (s_fna a) (s_fna b).
 (* the API-observable part *)
 Definition obs_eqb (r1 : outcome (list str)) (e1 : list N) (s1 : option isnap)
                    (r2 : outcome (list str)) (e2 : list N) (s2 : option isnap) : bool :=
@@ -48,7 +53,8 @@ Definition out_agrees (m : out) (i : iout) : bool :=
   let o := out_obs m in
   obs_eqb (o_res o) (o_errs o) (option_map snap_of (o_snap o)) (io_res i) (io_errs i) (io_snap i)
   && N.eqb (out_hits m) (io_hits i) && N.eqb (out_miss m) (io_miss i)
-  && list_eqb N.eqb (out_hints m) (io_hints i) && Bool.eqb (out_tpl_ok m) (io_tpl_ok i).
+  && list_eqb N.eqb (out_hints m) (io_hints i) && Bool.eqb (out_tpl_ok m) (io_tpl_ok i)
+  && list_eqb (option_eqb (list_eqb str_eqb)) (out_vc m) (io_vc i).
 
 Fixpoint all2 {A B} (f : A -> B -> bool) (a : list A) (b : list B) : bool :=
   match a, b with
@@ -122,4 +128,4 @@ Definition judge_history (c : env * list op * list iout * option iout * list iou
 Definition model_history (c : env * list op * list iout * option iout * list iout) :=
   let '(E, ops, _, _, _) := c in
   map (fun o => (o_res (out_obs o), o_errs (out_obs o), option_map snap_of (o_snap (out_obs o)),
-                 (out_hits o, out_miss o, out_hints o, out_tpl_ok o))) (snd (run E init ops)).
+                 (out_hits o, out_miss o, out_hints o, out_tpl_ok o, out_vc o))) (snd (run E init ops)).
